@@ -26,4 +26,3 @@ mod c19;
 mod c20;
 mod c21;
 mod c24;
-mod xp;
